@@ -305,7 +305,7 @@ def ln(a):
 
 
 def division(a, b):
-    return float(a) / float(b)
+    return a / b
 
 
 def split(a, b):
